@@ -12,12 +12,59 @@ BASE_NOTE = ("Trusted: Lean 4.33 kernel; axioms propext/Classical.choice/Quot.so
 
 # id -> (category, technique, level text, level note, design ref)
 CLAIMED = {
+    "C01": ("proof", "Lean 4 proof: level-invariant induction over supersteps (run = dependency-order fixed point) + differential correspondence",
+            "Kernel-checked: for every acyclic, gate-free, function-node graph with unique producers (multi-output and emit outputs included), every total sem and "
+            "every input, the runner loop ends quiescent within height+1 steps in the unique fixed point of dependency-order evaluation; every satisfiable node is "
+            "called exactly once with its final arguments, unsatisfiable nodes never run and produce nothing (dag_run, dag_exactly_once, dag_run_result, "
+            "resolve_precedence). Tie: random DAG programs (nesting, renames, bindings, defaults, emit/wait_for) run on both real runners, compared with the model and "
+            "with an independent dependency-order evaluator.",
+            BASE_NOTE + "Theorem hypotheses: no default/bound/run-time value on an edge-fed parameter (the count claim), no wait_for, function nodes; nested graphs, "
+            "wait_for and fed defaults are covered by the correspondence and the oracle. Known finding C01-F1 (default-fed waiter not re-run).", "DESIGN.md §7 C01"),
+    "C02": ("proof", "Lean 4 proof: snapshot reads + commutation of disjoint updates; schedule as permutation; run-level induction + correspondence on a controllable event loop",
+            "Kernel-checked: a node's computation never depends on step-siblings; stepAsync is independent of the completion order (state up to dict order, same error, "
+            "same pause); stepSync = stepAsync when no node fails; first error identical; whole programs (nested, mapped) give the same status/error/values under sync "
+            "and async for every schedule (run_sync_eq_async_prog, map_sync_eq_async_prog); ready set invariant under node-list permutation. Tie: every case runs sync, "
+            "async under fifo/lifo/random completion orders x max_concurrency {None,1,2,3} x permuted node lists on the real runners.",
+            BASE_NOTE + "Real asyncio scheduling is replaced by a controllable loop: suspension only inside node bodies. Failing continue-mode values: async returns a "
+            "superset of sync's partial values (proved; the property only requires that).", "DESIGN.md §7 C02"),
+    "C03": ("proof", "Lean 4 proof: safety invariant of the ready set (activation, blocked targets, END terminal) lifted to step logs + correspondence with trace oracle",
+            "Kernel-checked over arbitrary graphs and states: a gated node is ready only if a controlling gate's current decision names it or a never-executed default-open "
+            "gate is undecided; a gate and its target never start in the same step; END is never cleared; closed gates need an explicit current decision; every NodeStart "
+            "of a step names a ready node (any nesting depth). Tie: gated DAGs and loops on both runners, event-trace justification oracle and exact selected-branches oracle.",
+            BASE_NOTE + "ready_is_activated needs distinct decision keys (an invariant of reachable states, proved preserved).", "DESIGN.md §7 C03"),
+    "C04": ("proof", "Lean 4 proof: fuel bound (general) + induction on iteration count for loop families + correspondence against a sequential while-loop",
+            "Kernel-checked: runLoop never exceeds max_iterations and ends quiescent, failed, paused or with InfiniteLoopError carrying the state so far (loop_outcomes, "
+            "steps_le, limit_reports_infinite_loop); for loop families with body length 1 (if/else, route, exit node, signal-synchronised) and arbitrary body function, "
+            "condition, start value and n: exactly 2n+1 steps, n body calls, n+1 gate calls, final value F^n(x0), and the exact limit state otherwise. Tie: families with body "
+            "length 1-3, accumulators, both default_open settings, max_iterations around the exact bound, both runners, against a Python while-loop.",
+            BASE_NOTE + "Partial: families, not arbitrary cyclic programs; Progress hypothesis (known finding C04-F1: stall when an intermediate value repeats).", "DESIGN.md §7 C04"),
     "C06": ("proof", "Lean 4 proof: invariant over rename histories (ground-truth tracking) + differential correspondence",
             "Kernel-checked theorems for ALL valid rename histories (any number of batches, swaps, chains, re-used names): reverse/forward maps, "
             "nested-graph resolvers, argument delivery and map_over translation are correct; negative witnesses for the two repaired defects. "
             "Tie to code: random histories applied through the public API on function, gate, interrupt and nested-graph nodes, compared with the model "
             "and judged by a ground-truth oracle.",
             BASE_NOTE + "Whole-interpreter alpha-equivariance is exercised by correspondence only.", "DESIGN.md §7 C06"),
+    "C10": ("proof", "Lean 4 proof: list laws for zip/product, alignment of collected lists, sort-of-permutation + correspondence under random completion orders",
+            "Kernel-checked: zip is position-wise with equal lengths enforced, product is row-major with length = product of lengths, every output list of a mapping node has "
+            "one entry per combination (None for failed/missing), first failing item's error raised in input order, order restoration from completion order, item i of map = "
+            "single run on combination i. Tie: runner.map and mapping nodes on both runners, async on the controllable loop with max_concurrency {None,1,2,3}, vs single runs.",
+            BASE_NOTE + "Known finding C10-F1: async map(continue) turns a validation error into FAILED results where sync raises.", "DESIGN.md §7 C10"),
+    "C11": ("proof", "Lean 4 proof: error provenance by induction on nesting depth; partial state = successful prefix + correspondence with failure injection",
+            "Kernel-checked: a step never re-wraps a node error and reports the first failing node in ready order; nested-graph nodes and map propagate the same error; a user "
+            "error surfacing from any depth, runner, map mode was raised by some node function (run_error_provenance); FAILED results carry exactly filterOutputs of the "
+            "partial state, which keeps all earlier values and excludes the failing node's outputs. Tie: every generator with failing nodes at depth 0-2, both modes/runners; "
+            "object identity of the surfaced exception is checked on the real code.",
+            BASE_NOTE + "Known finding C11-F1: interrupt handler errors are wrapped in RuntimeError by design.", "DESIGN.md §7 C11"),
+    "C16": ("proof", "Lean 4 proof: membership invariants of ready set and filterOutputs + correspondence over entry points x selections x on_missing",
+            "Kernel-checked: with an active set only its nodes are ever ready; result keys are declared outputs within the effective selection, never the sentinel, each the "
+            "state's value; select precedence; on_missing ignore/warn/error table. Tie: generated graphs x entry-point sets x graph/run-time/nested selections x on_missing x "
+            "completed/failed/paused results on both runners, inputs derived from the reported spec.",
+            BASE_NOTE + "Entry-point downstream sets are over-approximated by the oracle (all producers), exact in the model.", "DESIGN.md §7 C16"),
+    "C17": ("proof", "Lean 4 proof: freshness invariant on wait_for versions + correspondence on the controllable event loop",
+            "Kernel-checked: a waiter is ready only if its signal exists and no co-ready node produces it, and on re-execution only if the signal's version advanced; an emit "
+            "is fresh on every production; liveness: all conditions true implies membership in the ready set; negative witness for the unrepaired update_value. Tie: DAGs "
+            "and signal loops with function/gate/interrupt producers and several waiters on both runners under random completion orders, event-order oracle.",
+            BASE_NOTE, "DESIGN.md §7 C17"),
 }
 
 NOT_YET = "not yet claimed: check under construction (see DESIGN.md section 7)"
